@@ -6,7 +6,8 @@
 // arithmetic assumes that).
 // Every colour group runs the script on its own sub-communicator; script ranks that do not exist there issue nothing.
 // Output lines are prefixed "@<run>.<container> " with run = w or s.
-// A token may be prefixed "1/" to address a SECOND disjoint_set<int64_t> alive on the same communicator.
+// A token may be prefixed "1/" to address a SECOND disjoint_set of the same type alive on the same communicator.
+// ":str" in argv[1] runs disjoint_set<std::string> (order-preserving encoding of the script's numbers) instead of <int64_t>.
 // Every rank parses the whole script (argv[2..]); tokens:
 //   u:<r>:<a>:<b>   rank r (or * = every rank) calls async_union(a, b)
 //   x:<r>:<a>:<b>   ... async_union_and_execute(a, b, cb)      (cb logs "c <epoch> a b")
@@ -15,7 +16,7 @@
 //                   ("d <id> item rank parent" on the owner's out file); barrier.  Known items all
 //                   exist already, so async_visit's insert-if-absent does not fire.
 //   N:<id>          "n <id> num_sets size" on every rank
-//   F:<id>:<mode>   all_find (collective): mode a = rank 0 asks for all known items, s = rank r asks
+//   F:<id>:<mode>[:i,j]  all_find (collective), the items i,j (usually unknown to the container) join the known ones; mode a = rank 0 asks for all known items, s = rank r asks
 //                   for the items at positions p with p % nranks == r, e = every rank asks for all;
 //                   "f <id> item rep" per returned pair
 //   A:<id>          for_all: "a <id> item rep" per local item
@@ -38,10 +39,27 @@ static std::vector<std::string> split(const std::string& s, char sep) {
 }
 static void emit(int cid, const std::string& line) { hc::out("@" + g_run + "." + std::to_string(cid) + " " + line); }
 
-using dset_t = ygm::container::disjoint_set<int64_t>;
+// item types: int64_t, or std::string holding the zero-padded decimal of the script's number ("k000000000123"): the
+// lexicographic order of those strings is the numeric order, so the model (items = naturals) applies unchanged.  A string
+// that is not of that form (e.g. a default-constructed "") is printed as -1.
+template <class T> struct codec;
+template <> struct codec<int64_t> {
+  static int64_t enc(int64_t v) { return v; }
+  static std::string show(const int64_t& v) { return std::to_string(v); }
+};
+template <> struct codec<std::string> {
+  static std::string enc(int64_t v) { char b[32]; snprintf(b, sizeof b, "k%012lld", (long long)v); return b; }
+  static std::string show(const std::string& s) {
+    if (s.size() != 13 || s[0] != 'k') return "-1";
+    return std::to_string(atoll(s.c_str() + 1));
+  }
+};
 
 // the scenario body: identical code (and template instantiations) whatever communicator it is given
+template <class T>
 static void run_script(ygm::comm& c, int argc, char** argv, int first, bool two) {
+  using dset_t = ygm::container::disjoint_set<T>;
+  using cd = codec<T>;
   g_epoch[0] = g_epoch[1] = 0; g_seg[0] = g_seg[1] = 0;
   {
     dset_t ds0(c);
@@ -64,9 +82,9 @@ static void run_script(ygm::comm& c, int argc, char** argv, int first, bool two)
         if (!all && r >= n) continue;               // that rank does not exist on this communicator
         known[cid].insert(a); known[cid].insert(b);
         if (all || r == me) {
-          if (op == "u") ds.async_union(a, b);
-          else ds.async_union_and_execute(a, b, [](const int64_t& oa, const int64_t& ob, const int& cid) {
-            emit(cid, "c " + std::to_string(g_epoch[cid]) + " " + std::to_string(oa) + " " + std::to_string(ob) + " " + std::to_string(g_seg[cid]));
+          if (op == "u") ds.async_union(cd::enc(a), cd::enc(b));
+          else ds.async_union_and_execute(cd::enc(a), cd::enc(b), [](const T& oa, const T& ob, const int& cid) {
+            emit(cid, "c " + std::to_string(g_epoch[cid]) + " " + codec<T>::show(oa) + " " + codec<T>::show(ob) + " " + std::to_string(g_seg[cid]));
           }, cid);
         }
       } else if (op == "B") {
@@ -76,9 +94,9 @@ static void run_script(ygm::comm& c, int argc, char** argv, int first, bool two)
         c.barrier();
         if (me == 0) {
           for (int64_t it : known[cid])
-            ds.async_visit(it, [](auto& item_info, int id, int cid) {
-              emit(cid, "d " + std::to_string(id) + " " + std::to_string(item_info.first) + " " +
-                        std::to_string((int)item_info.second.get_rank()) + " " + std::to_string(item_info.second.get_parent()));
+            ds.async_visit(cd::enc(it), [](auto& item_info, int id, int cid) {
+              emit(cid, "d " + std::to_string(id) + " " + codec<T>::show(item_info.first) + " " +
+                        std::to_string((int)item_info.second.get_rank()) + " " + codec<T>::show(item_info.second.get_parent()));
             }, id, cid);
         }
         c.barrier();
@@ -87,19 +105,22 @@ static void run_script(ygm::comm& c, int argc, char** argv, int first, bool two)
         size_t ns = ds.num_sets(); size_t sz = ds.size();
         emit(cid, "n " + f[1] + " " + std::to_string(ns) + " " + std::to_string(sz));
       } else if (op == "F") {
-        std::vector<int64_t> q; size_t p = 0;
+        // F:<id>:<mode>[:i,j,..]: the listed items (typically never passed to any union) are asked for as well; all_find
+        // creates a singleton for an unknown item, so they are known from here on
+        if (f.size() > 3) for (long v : hc::longs(f[3].c_str())) known[cid].insert(v);
+        std::vector<T> q; size_t p = 0;
         for (int64_t it : known[cid]) {
           bool mine = f[2] == "e" || (f[2] == "a" && me == 0) || (f[2] == "s" && (int)(p % n) == me);
-          if (mine) q.push_back(it);
+          if (mine) q.push_back(cd::enc(it));
           ++p;
         }
         auto res = ds.all_find(q);
-        for (auto& kv : res) emit(cid, "f " + f[1] + " " + std::to_string(kv.first) + " " + std::to_string(kv.second));
+        for (auto& kv : res) emit(cid, "f " + f[1] + " " + cd::show(kv.first) + " " + cd::show(kv.second));
         emit(cid, "fq " + f[1] + " " + std::to_string(q.size()) + " " + std::to_string(res.size()));
       } else if (op == "A") {
         std::string id = f[1];
-        ds.for_all([&id, cid](const int64_t& item, const int64_t& rep) {
-          emit(cid, "a " + id + " " + std::to_string(item) + " " + std::to_string(rep));
+        ds.for_all([&id, cid](const T& item, const T& rep) {
+          emit(cid, "a " + id + " " + cd::show(item) + " " + cd::show(rep));
         });
       } else if (op == "K") {
         // collective; may directly follow async_union calls (no barrier in between): clear() itself
@@ -112,10 +133,16 @@ static void run_script(ygm::comm& c, int argc, char** argv, int first, bool two)
   emit(0, "end");
 }
 
+static bool g_str = false;
+static void run_any(ygm::comm& c, int argc, char** argv, bool two) {
+  if (g_str) run_script<std::string>(c, argc, argv, 2, two);
+  else run_script<int64_t>(c, argc, argv, 2, two);
+}
+
 static void run_world(int argc, char** argv, bool two) {
   ygm::comm world(MPI_COMM_WORLD);
   g_run = "w";
-  run_script(world, argc, argv, 2, two);
+  run_any(world, argc, argv, two);
 }
 
 static void run_sub(int argc, char** argv, bool two, char kind) {
@@ -128,7 +155,7 @@ static void run_sub(int argc, char** argv, bool two, char kind) {
     ygm::comm sub(subc);
     g_run = "s";
     hc::out("@s.0 group " + std::to_string(colour) + " " + std::to_string(sub.rank()) + " " + std::to_string(sub.size()));
-    run_script(sub, argc, argv, 2, two);
+    run_any(sub, argc, argv, two);
   }
   MPI_Comm_free(&subc);
 }
@@ -137,11 +164,11 @@ extern "C" int sim_main(int argc, char** argv) {
   int wr = 0;
   MPI_Comm_rank(MPI_COMM_WORLD, &wr);
   hc::open_out(wr);
-  auto m = split(argc > 1 ? argv[1] : "M:w", ':');      // M:<w|sw|ws>[:<p|l>][:2]
+  auto m = split(argc > 1 ? argv[1] : "M:w", ':');      // M:<w|sw|ws>[:<p|l|n>][:2][:str]
   std::string mode = m.size() > 1 ? m[1] : "w";
   char kind = m.size() > 2 && !m[2].empty() ? m[2][0] : 'p';
   bool two = false;
-  for (auto& x : m) if (x == "2") two = true;
+  for (auto& x : m) { if (x == "2") two = true; if (x == "str") g_str = true; }
   if (mode == "sw") { run_sub(argc, argv, two, kind); run_world(argc, argv, two); }
   else if (mode == "ws") { run_world(argc, argv, two); run_sub(argc, argv, two, kind); }
   else run_world(argc, argv, two);
